@@ -12,6 +12,26 @@ MUTATING = {'push', 'pop', 'push_back', 'pop_front', 'pop_back', 'push_front', '
             'erase', 'assign', 'swap'}
 
 
+def flat_nodes(F, fn, depth=0, seen=None):
+    """nodes of a method together with the bodies of the private helpers of the same class it calls on this (extracted methods):
+    tree-based rules look at the method as if the helpers were written in place"""
+    seen = seen if seen is not None else set()
+    for n in walk(fn['body']):
+        yield n
+        if depth < 3 and n.get('k') == 'Call' and n.get('ck') == 'member' and n.get('calleeInRoot') and n.get('clsq') == fn.get('class') and not n.get('virt'):
+            o = strip_all_casts(n.get('obj')) if n.get('obj') is not None else None
+            if o is None or (isinstance(o, dict) and o.get('k') == 'This'):
+                for c in F.functions.get(n.get('callee'), []):
+                    if c['sig'] == n.get('csig') and c.get('access') == 2 and (c['name'], c['sig']) not in seen and c['name'] != fn['name']:
+                        seen.add((c['name'], c['sig']))
+                        yield from flat_nodes(F, c, depth + 1, seen)
+
+
+def is_private_helper(F, fn):
+    """a private method that is only reached through other methods of its class"""
+    return fn.get('access') == 2 and fn.get('kind') == 'method'
+
+
 def stage_classes(F, R):
     return sorted(set(R.stages.values()))
 
@@ -734,7 +754,7 @@ def K6(F, rep, R, FL, ws):
 
 # ---------------------------------------------------------------------- K7 SPSC
 def writes_fields(fn, fields):
-    for n in walk(fn['body'], into_lambda=False):
+    for n in walk(fn['body']):
         if n.get('k') == 'Bin' and n.get('op') in ('=', '+=', '-='):
             p = member_path(n['lhs'])
             if p and len(p) == 1 and p[0] in fields:
@@ -778,7 +798,7 @@ def K7(F, rep, R, ws):
         for w in ws:
             if w['cls'] != cls:
                 continue
-            ins = any(n.get('k') == 'Call' and n.get('fn') in ('push', 'push_back', 'emplace_back') for n in walk(w['fn']['body'], into_lambda=False))
+            ins = any(n.get('k') == 'Call' and n.get('fn') in ('push', 'push_back', 'emplace_back') for n in flat_nodes(F, w['fn']))
             if ins:
                 consumer_cv = w['cv']
             else:
@@ -800,9 +820,9 @@ def K7(F, rep, R, ws):
             # releasing / appending storage is a consumer / producer action whoever is notified (dropOldData notifies nobody;
             # a producer method that also releases containers acts on both sides)
             pops = any(n.get('k') == 'Call' and n.get('fn') in ('pop', 'pop_front', 'pop_back', 'erase') and
-                       (member_path(n.get('obj')) or (None,))[-1] in g for n in walk(fn['body'], into_lambda=False))
+                       (member_path(n.get('obj')) or (None,))[-1] in g for n in flat_nodes(F, fn))
             pushes = any(n.get('k') == 'Call' and n.get('fn') in ('push', 'push_back', 'emplace_back') and
-                         (member_path(n.get('obj')) or (None,))[-1] in g for n in walk(fn['body'], into_lambda=False))
+                         (member_path(n.get('obj')) or (None,))[-1] in g for n in flat_nodes(F, fn))
             if pops and consumer_cv:
                 sides.add(consumer_cv)
             if pushes and producer_cv:
@@ -983,9 +1003,55 @@ def _alias_table(fn):
             x = strip_all_casts(n['obj'])
             if isinstance(x, dict) and x.get('k') == 'Ref' and not x.get('t', '').endswith('*') and 'shared_ptr' not in x.get('t', ''):
                 bad.add(x.get('id'))
+    bad |= _alias_scan_extra(fn)
     t = {i: e for i, e in inits.items() if i not in bad}
     fn['_alias'] = t
     return t
+
+
+def _alias_scan_extra(fn):
+    """locals that must not be treated as aliases: objects (copies are different things than their source), containers, and anything
+    handed to another function by reference / pointer (it may be changed there)"""
+    bad = set()
+    for n in walk(fn['body']):
+        if n.get('k') == 'Decl':
+            for v in n['vars']:
+                t = v.get('t', '')
+                if v.get('kind') == 'record' and not t.endswith('*') and '&' not in t:
+                    if 'Vector::BLF::' in t or t.startswith(('std::vector', 'std::basic_string', 'std::list', 'std::queue', 'std::array',
+                                                              'std::unique_lock', 'std::lock_guard', 'std::thread')):
+                        bad.add(v['id'])
+        if n.get('k') in ('Call', 'Construct') and n.get('calleeInRoot'):
+            for a in n.get('args', []):
+                x = strip_all_casts(a)
+                if isinstance(x, dict) and x.get('k') == 'Un' and x.get('op') == '&':
+                    x = strip_all_casts(x['sub'])
+                if isinstance(x, dict) and x.get('k') == 'Ref' and x.get('dk') == 'local' and not x.get('t', '').endswith('*'):
+                    # by-value scalars are harmless, objects may be taken by reference
+                    if 'Vector::BLF::' in x.get('t', '') or x.get('t', '').startswith('std::'):
+                        bad.add(x['id'])
+    return bad
+
+
+_FACTS = [None]
+
+
+def set_facts(F):
+    _FACTS[0] = F
+
+
+def _file_alias_table(F, fn):
+    """alias tables of all functions defined in the same source file (one translation unit: local ids are unique in it)"""
+    cache = F.__dict__.setdefault('_file_alias', {})
+    key = fn.get('file')
+    if key not in cache:
+        t = {}
+        for fns in F.functions.values():
+            for g_ in fns:
+                if g_.get('file') == key:
+                    t.update(_alias_table(g_))
+        cache[key] = t
+    return cache[key]
 
 
 def deep_resolve(e, fn, depth=0):
@@ -994,6 +1060,8 @@ def deep_resolve(e, fn, depth=0):
     if not isinstance(e, dict) or depth > 6:
         return e
     t = _alias_table(fn)
+    if e.get('k') == 'Ref' and e.get('dk') == 'local' and e.get('id') not in t and _FACTS[0] is not None:
+        t = _file_alias_table(_FACTS[0], fn)
     x = e
     if e.get('k') == 'Ref' and e.get('dk') == 'local' and e.get('id') in t:
         init = t[e['id']]
@@ -1150,13 +1218,18 @@ def P(F, rep, R, FL, ws):
         if len(cvs) < 2:
             continue
         for fn in methods_of(F, cls):
-            ins = [n for n in walk(fn['body']) if n.get('k') == 'Call' and n.get('fn') in ('push_back', 'push', 'emplace_back', 'emplace') and
+            if is_private_helper(F, fn):
+                continue   # judged as part of the public methods that call it
+            ins = [n for n in flat_nodes(F, fn) if n.get('k') == 'Call' and n.get('fn') in ('push_back', 'push', 'emplace_back', 'emplace') and
                    (member_path(n.get('obj')) or (None,))[-1] in g]
             if not ins:
                 continue
             rep.count('P2')
             w = [x for x in ws if x['fn'] is fn or (x['fn']['name'] == fn['name'] and x['fn']['sig'] == fn['sig'])]
-            ok = bool(w) and all('m_bufferSize' in x['fields'] for x in w) and min(x['line'] for x in w) < min(n['l'] for n in ins) and \
+            direct = [n for n in walk(fn['body']) if n in ins or any(n is i for i in ins)]
+            first_ins_line = min([n['l'] for n in walk(fn['body']) if n.get('k') == 'Call' and (any(n is i for i in ins) or
+                                  (n.get('calleeInRoot') and n.get('clsq') == cls and any(i in list(flat_nodes(F, c_)) for c_ in F.functions.get(n.get('callee'), []) for i in ins)))] or [10 ** 9])
+            ok = bool(w) and all('m_bufferSize' in x['fields'] for x in w) and min(x['line'] for x in w) < first_ins_line and \
                 all(x['variant'] == 'wait' for x in w)
             rep.ob('P2', short(fn['name']) + '|' + fn['sig'], ok, rep.fn_site(fn, ins[0]['l']),
                    '%s inserts into %s %s' % (short(fn['name']), (member_path(ins[0].get('obj')) or ('?',))[-1],
